@@ -30,6 +30,8 @@ type C03Plan struct {
 	Cfg      IngestCfg `json:"cfg"`
 	DupAt    int       `json:"dup_at"` // doctor: position of the planted duplicate
 	Stale    bool      `json:"stale"`  // ingest: damaged table index / profile left under the table's key are overwritten by a re-ingest
+	KeyCols  []int     `json:"key_cols,omitempty"` // composite key: column indices in declared key order (overrides the single id key)
+	Huge     bool      `json:"huge,omitempty"`     // ingest only: N may exceed 1024 blocks
 }
 
 var c03Sizes = []int{0, 1, 2, 254, 255, 256, 509, 510, 511, 765, 766}
@@ -47,6 +49,18 @@ func init() {
 			}
 			p.DupAt = r.Intn(800)
 			p.Stale = r.Chance(0.25)
+			if r.Chance(0.4) {
+				p.NCols = max(p.NCols, r.Range(2, 5))
+				p.KeyCols = r.Perm(p.NCols)[:r.Range(2, min(4, p.NCols))]
+				if !containsInt(p.KeyCols, 0) && r.Chance(0.7) {
+					p.KeyCols[r.Intn(len(p.KeyCols))] = 0
+				}
+			}
+			if seed%1000 == 0 {
+				// more than 1024 blocks (table readers pre-allocate at most 1024 sums)
+				p.Producer, p.Huge, p.N, p.NCols, p.Stale, p.EmptyRow, p.KeyCols = "ingest", true, 1024*255+r.Range(1, 700), min(p.NCols, 2), false, false, nil
+				p.Cfg.RunSize = 0
+			}
 			return p
 		},
 		Exec: execC03,
@@ -86,11 +100,27 @@ func execC03(t *testing.T, raw json.RawMessage, res *Result) {
 		res.Invalid("plan: %v", err)
 		return
 	}
-	if p.N < 0 || p.N > 3000 || p.NCols < 1 || p.NCols > 8 || p.Cfg.Workers < 0 || p.Cfg.Workers > 64 {
+	if p.N < 0 || (p.N > 3000 && !(p.Huge && p.N <= 300000 && p.Producer == "ingest")) || p.NCols < 1 || p.NCols > 8 || p.Cfg.Workers < 0 || p.Cfg.Workers > 64 {
 		res.Invalid("plan out of range")
 		return
 	}
 	cols, pk, rows := SynthSpec{N: p.N, NCols: p.NCols, Seed: p.Seed}.Build()
+	if len(p.KeyCols) > 0 {
+		pk = nil
+		seen := map[int]bool{}
+		for _, j := range p.KeyCols {
+			if j < 0 || j >= len(cols) || seen[j] || len(p.KeyCols) > 6 {
+				res.Invalid("key_cols")
+				return
+			}
+			seen[j] = true
+			pk = append(pk, cols[j])
+		}
+		res.probe("composite_key", 1)
+		if len(pk) >= 3 {
+			res.probe("composite_key_3plus", 1)
+		}
+	}
 	if p.Keyless {
 		pk = nil
 	}
@@ -353,5 +383,10 @@ func execC03(t *testing.T, raw json.RawMessage, res *Result) {
 		return
 	}
 	res.probe("producer_"+p.Producer, 1)
+	if len(rows) > 1024*255 {
+		res.probe("table_over_1024_blocks", 1)
+	}
 	res.Nontrivial = len(rows) >= 255 || p.Producer != "ingest"
 }
+
+func containsInt(xs []int, x int) bool { return contains(xs, x) }
